@@ -29,6 +29,10 @@ def check(rep, tier, seed):
         rcases = [c09.gen_case(seed, 5000 + i, ["memkv", "tikv"][i % 2], p) for i, p in enumerate(sel)]
     else:
         rcases = [c09.gen_case(seed, 5000 + i, ENGINES[i % 3], pl[i % len(pl)]) for i in range(126)]
+    # ... and between the repair's read (+ deal) and its commit the revision it holds is in flight like a client's:
+    # client writes placed in between (the repair's compare-and-swap then fails), every outcome of the repair's commit
+    scases, n_spl = c09.stepped_cases(seed + 17, tier, base=7000)
+    rcases += scases
     for c in rcases:
         c.meta["retry"] = True
     cases += rcases
@@ -46,6 +50,8 @@ def check(rep, tier, seed):
         if c.diff() is not None:
             core.handle_diff(rep, "C04", "correspondence", c)
             return
-    rep.assumptions += ["atomicity granularity: one tso.Deal, one engine batch commit, one engine snapshot read, one slot store are single steps",
+    rep.cov["stepped_repair_placements"] = n_spl
+    rep.assumptions += ["atomicity granularity: one tso.Deal, one engine batch commit, one engine snapshot read, one slot store are single steps "
+                        "(the repair loop: its read + deal, and its commit + notification + pop)",
                         "the gated harness schedules storage calls; revision allocation happens together with the preceding step",
                         "sequencer goroutine free-running (eager in the model); observations of the committed revision are waited for (bounded)"]
